@@ -1,5 +1,10 @@
 use std::cell::Cell;
 use std::ptr;
+#[cfg(multiqueue2_verif)]
+use crate::verif_hooks::{fence, AtomicPtr, AtomicUsize};
+#[cfg(multiqueue2_verif)]
+use std::sync::atomic::Ordering;
+#[cfg(not(multiqueue2_verif))]
 use std::sync::atomic::{fence, AtomicPtr, AtomicUsize, Ordering};
 
 use crate::alloc;
